@@ -12,7 +12,9 @@ EXPLANATION = (
     "the re-basing code (list.move(delta), setMem(.., mem + delta)), or the discard is justified structurally: the caller is the arena's "
     "own class, rebuilds the contents afterwards (operator=), clears every dependent container in the same function (clear()), or keeps "
     "offsets instead of pointers (NameSet); R19.3 removal by permutation in LPRowSetBase / LPColSetBase moves the parallel arrays for all old indices (the loop "
-    "bound is the count before the removal). The abstract-data-type behaviour itself - key stability, dense numbering, permutation "
+    "bound is the count before the removal); R19.4 no do-while loop is controlled by a countdown that can be zero at entry (positive control); "
+    "R19.5 remove(nums, n) is never implemented by removing one (renumbering) element at a time; R19.6 in SVSetBase the amount inserted in "
+    "place after ensureMem(E) is bounded by E. The abstract-data-type behaviour itself - key stability, dense numbering, permutation "
     "results, hash-table deletion, vector arithmetic, sorting - is NOT decided: it quantifies over operation sequences and run-time "
     "contents; the two seeded changes for C19 (hash-table slot marking, insertion sort bound) are of that kind and are not caught.")
 
@@ -159,3 +161,116 @@ def run(fb, rep, tier):
             rep.check(ok, 'R19.3', key, wh, 'the bound is the count before the removal', '%s: survivors with an old index at or above the new count (those moved into the holes) keep their vector but not their sides / bounds / objective / exponent' % why)
     if k3 < 4:
         raise AnalysisBroken('R19.3: only %d permutation removals with parallel arrays found' % k3)
+
+
+    # ------------------------------------------------------------------ R19.4
+    # a do-while whose condition is a countdown (while(--c) / while(c > 0) with c decremented in the body) executes its body once even
+    # when there is nothing to do; with a count of zero the body then works with the index -1 (or wraps around).  Required: the count is
+    # positive at entry by a dominating test, or the loop is a while loop.  Expected count on the library: 0; positive control.
+    rep.rule('R19.4', 'no do-while loop is controlled by a countdown that can be zero at entry (the body would run once with count -1)', floor=2)
+    ctl4 = 0
+    n_do = 0
+    for f in fb.funcs.values():
+        isctl = f.name.startswith('verif_ctl::')
+        if not (f.name.startswith('soplex::') or isctl):
+            continue
+        for n in f.nodes:
+            if n.k != 'DoStmt':
+                continue
+            n_do += 1
+            c = strip(n.kid('cond'))
+            var = None
+            if c is not None and c.k == 'UnaryOperator' and c.o in ('--', 'pre--', 'post--') and c.c:
+                var = render(strip(c.kids[0]))
+            elif c is not None and c.k == 'BinaryOperator' and c.o in ('>', '!=') and render(strip(c.kids[1])) == '0':
+                v = render(strip(c.kids[0]))
+                body = n.kid('body')
+                if body is not None and any(x.k == 'UnaryOperator' and x.o in ('--', 'pre--', 'post--') and x.c and render(strip(x.kids[0])) == v for x in body.walk()):
+                    var = v
+            if var is None:
+                continue
+            guarded = any(a.k in ('IfStmt', 'WhileStmt') and re.search(r'\b%s\b (>|!=) 0|\b%s\b >= 1' % (re.escape(var), re.escape(var)), render(a.kid('cond'))) for a in f.ancestors(n))
+            if isctl:
+                ctl4 += 0 if guarded else 1
+                continue
+            rep.check(guarded, 'R19.4', '%s|do-while(%s)' % (f.name.replace('soplex::', '')[:60], render(c)[:20]), '%s:%d' % (f.file, n.l), 'count tested before the loop',
+                      'the do-while loop counts %s down and is entered without a test that it is positive: with a count of zero the body runs once with %s == -1 (an element before the range is overwritten, or the counter wraps around)' % (var, var))
+    if ctl4 < 1:
+        raise AnalysisBroken('R19.4 positive control (units/controls.cpp countdown_do_while) did not fire')
+    rep.ok('R19.4', 'control|countdown_do_while', 'units/controls.cpp', 'positive control fires', nontrivial=False)
+    rep.ok('R19.4', 'scan|do-while loops', 'src', '%d do-while loops scanned' % n_do, nontrivial=False)
+    if n_do < 15:
+        raise AnalysisBroken('R19.4: only %d do-while loops found' % n_do)
+
+    # ------------------------------------------------------------------ R19.5
+    # removal of several elements given by number: the numbers refer to the numbering before the call, and every single removal
+    # renumbers (the last element moves into the hole) - so the list version must not call the single-number remove in a loop
+    rep.rule('R19.5', 'remove(nums, n) never removes the elements one by one with the renumbering single-element remove', floor=5)
+    k5 = 0
+    for f in sorted(fb.funcs.values(), key=lambda g: g.name):
+        if f.short != 'remove' or not f.name.startswith('soplex::') or not f.nodes or len(f.params) < 2:
+            continue
+        if not (f.params[0][1].replace('const ', '').strip() in ('int *', 'int []') and f.params[1][1] == 'int'):
+            continue
+        if 'DataKey' in f.params[0][1]:
+            continue
+        k5 += 1
+        arr = f.params[0][0]
+        seq = []
+        for n in f.nodes:
+            if n.is_call() and n.short == 'remove' and len(n.args()) == 1 and re.match(r'^%s\[' % re.escape(arr), render(strip(n.args()[0]))) and any(a.k in ('ForStmt', 'WhileStmt', 'DoStmt') for a in f.ancestors(n)):
+                seq.append(n)
+        rep.check(not seq, 'R19.5', '%s(%s)' % (f.name.replace('soplex::', '')[:60], ','.join(t for _, t in f.params)), f.where(), 'removal through a permutation / status array',
+                  '%s removes %s[i] one at a time: after the first removal the remaining numbers refer to a different numbering (wrong elements are removed)' % (f.short, arr))
+    if k5 < 5:
+        raise AnalysisBroken('R19.5: only %d remove(nums, n) overloads found' % k5)
+
+    # ------------------------------------------------------------------ R19.6
+    # SVSetBase grows its arena "in place" (insert / reSize under the belief that the data pointer does not move) after ensureMem(E):
+    # the amount A consumed must be bounded by E.  ensureMem may pack the memory, which lowers every vector's max() to its size(), so an
+    # amount that reads max() after the call is only bounded by an E computed from the size.
+    rep.rule('R19.6', 'SVSetBase: the amount inserted in place after ensureMem(E) is bounded by E (equal and free of vector state, or X - max() against X - size)', floor=3)
+    k6 = 0
+    for f in sorted(fb.methods_of('soplex::SVSetBase<double>'), key=lambda g: (g.name, g.line)):
+        if not f.nodes:
+            continue
+        ens = [n for n in f.nodes if n.k == 'CXXMemberCallExpr' and n.short == 'ensureMem' and n.args()]
+        uses = []
+        for n in f.nodes:
+            if n.k == 'CXXMemberCallExpr' and n.short == 'insert' and len(n.args()) == 2 and render(strip(n.args()[0])) == 'memSize()':
+                uses.append((n, strip(n.args()[1])))
+            if n.k == 'CXXMemberCallExpr' and n.short == 'reSize' and len(n.args()) == 1 and render(strip(n.args()[0])).startswith('(memSize() + '):
+                uses.append((n, strip(strip(n.args()[0]).kids[1])))
+        seen_amt = set()
+        for n, amt in uses:
+            prev = [e for e in ens if e.i < n.i]
+            at = render(amt)
+            if (f.u, at) in seen_amt:
+                continue           # the #ifndef NDEBUG twin of the same statement
+            seen_amt.add((f.u, at))
+            k6 += 1
+            key = '%s|in-place growth by %s' % (f.short, at[:30])
+            wh = '%s:%d' % (f.file, n.l)
+            if not prev:
+                rep.bad('R19.6', key, wh, 'the arena grows in place by %s without a preceding ensureMem' % at)
+                continue
+            # nearest preceding ensureMem whose branch contains the use
+            e = prev[-1]
+            et = render(strip(e.args()[0]))
+            ok = False
+            why = ''
+            if et == at and 'max()' not in at and 'size()' not in at:
+                ok = True
+                why = 'same amount %s, free of vector state' % at
+            else:
+                m1 = re.match(r'^\((\w+) - (\w+)\)$', et)
+                m2 = re.match(r'^\((\w+) - (\w+)->max\(\)\)$', at)
+                if m1 and m2 and m1.group(1) == m2.group(1):
+                    s_ = m1.group(2)
+                    init = [x for x in f.nodes if x.k == 'VarDecl' and x.n == s_ and x.c and render(strip(x.kids[0])) == '%s->size()' % m2.group(2)]
+                    if init:
+                        ok = True
+                        why = 'reserved %s, consumed %s with %s = %s->size() <= max()' % (et, at, s_, m2.group(2))
+            rep.check(ok, 'R19.6', key, wh, why, 'ensureMem(%s) is followed by an in-place growth by %s, which is evaluated after ensureMem may have packed the memory (max() drops to size()): more is inserted than was reserved, the arena reallocates and every vector keeps pointing into the released block' % (et, at))
+    if k6 < 3:
+        raise AnalysisBroken('R19.6: only %d in-place growth sites found in SVSetBase' % k6)
